@@ -820,6 +820,8 @@ var specBuiltins = map[string]builtinSpec{
 	"fmtx":        {"fmtx", []Sort{SInt}, SString, tString},
 	"itoa":        {"itoa", []Sort{SInt}, SString, tString},
 	"parsehex":    {"parsehex", []Sort{SString}, SInt, tInt},
+	"parseok":     {"parseok", []Sort{SString, SInt}, SBool, tBool},
+	"parseint":    {"parseint", []Sort{SString, SInt}, SInt, tInt},
 	"splitcount":  {"splitcount", []Sort{SString, SString}, SInt, tInt},
 	"splitpart":   {"splitpart", []Sort{SString, SString, SInt}, SString, tString},
 }
@@ -975,6 +977,20 @@ func (sc *Scope) trCall(x *ECall) (Term, types.Type) {
 		a, _ := arg(0)
 		b, _ := arg(1)
 		return T(SInt, "(str.indexof %s %s 0)", a.S, b.S), tInt
+	case "written":
+		// bytes written so far to an io.Writer / hash.Hash
+		t, _ := arg(0)
+		return Select(fc.lookupIn(sc.curEnv(), fc.libStateVar("written")), t), tString
+	case "hashsumhex":
+		// lowercase hex digest of what has been written to a hash.Hash
+		t, _ := arg(0)
+		fc.eng.digestDecls()
+		w := Select(fc.lookupIn(sc.curEnv(), fc.libStateVar("written")), t)
+		return T(SString, "(hexlower (digestraw (hashalg %s) (hashkey %s) %s))", t.S, t.S, w.S), tString
+	case "hashalg":
+		t, _ := arg(0)
+		fc.eng.digestDecls()
+		return T(SInt, "(hashalg %s)", t.S), tInt
 	case "typeof":
 		t, _ := arg(0)
 		fc.eng.GDecl("typeof", "(declare-fun typeof (Int) Int)")
